@@ -1,7 +1,11 @@
 (* What execute_query leaves in the temps when it runs on the scratch that
    preprocess_config_creation prepared (temps := cached counts, complementary leaves zeroed, true
-   nodes hidden): whenever it does not answer through the "unsatisfiable" core shortcut, every node
-   that is not a true node holds its count under the assumptions afterwards.
+   nodes hidden): whenever it does not answer through the "unsatisfiable" core shortcut, every
+   REACHABLE node (the root, the children of reachable nodes with a non-zero count: Proofs/Live.v)
+   that is not a true node holds its count under the assumptions afterwards.  Inside a dead branch
+   a temp may be stale since the core ignores dead branches (F22): a core literal is dropped from
+   the query although its complement is a leaf of a dead branch; enumeration and sampling never
+   enter such a branch.
      marker strategy  : marked nodes are recomputed, unmarked nodes have no zeroed leaf below them
                         and keep the cached count, which is their count under the assumptions;
      default strategy : every position is recomputed;
@@ -10,7 +14,7 @@
 From Coq Require Import List ZArith Bool Lia Permutation.
 From DD Require Import Model.Circuit Model.Query Model.Enumerate
   Proofs.PassLemmas Proofs.Enum Proofs.Semantics Proofs.CountsA Proofs.QueryDefs
-  Proofs.C02Basics Proofs.C02Marking Proofs.C02Proof Proofs.C06Node.
+  Proofs.C02Basics Proofs.C02Marking Proofs.C02Proof Proofs.Live Proofs.LiveCounts Proofs.C06Node.
 Import ListNotations.
 Open Scope Z_scope.
 
@@ -84,23 +88,19 @@ Proof.
   apply (H i). apply (opposing_spec C n HQ). now exists l.
 Qed.
 
-Lemma reduce_memZ (A : cfg) (l : Z) :
-  In (Lit l) C -> memZ (- l) (reduce_query d A) = memZ (- l) A.
-Proof.
-  intros Hl. apply eq_true_iff_eq. rewrite !memZ_In.
-  unfold reduce_query. rewrite filter_In. split; [tauto|]. intros H. split; [exact H|].
-  apply negb_true_iff. destruct (has_no_effect d (- l)) eqn:E; [|reflexivity]. exfalso.
-  unfold has_no_effect in E. apply andb_true_iff in E. destruct E as [_ E].
-  cbn [core build] in E. apply memZ_In in E. apply core_spec in E. destruct E as [_ E].
-  rewrite Z.opp_involutive in E. contradiction.
-Qed.
+Lemma Hok' : idx_ok C = true. Proof. exact (Hok C n HQ). Qed.
+Lemma Hne' : C <> []. Proof. exact (Hne C n HQ). Qed.
 
-Lemma opposing_reduce (A : cfg) (j : nat) :
-  In j (opposing_indexes d (reduce_query d A)) <-> In j (opposing_indexes d A).
+(* a reachable leaf that the query zeroes is still zeroed by the reduced query: its literal is
+   live, so the complement is not a core literal *)
+Lemma opposing_reduce_reach (A : cfg) (j : nat) :
+  Reach C j -> In j (opposing_indexes d A) -> In j (opposing_indexes d (reduce_query d A)).
 Proof.
-  rewrite !(opposing_spec C n HQ). split; intros [l [Hl Hm]]; exists l; (split; [exact Hl|]).
-  - rewrite reduce_memZ in Hm; [exact Hm|]. eapply nth_error_In; exact Hl.
-  - rewrite reduce_memZ; [exact Hm|]. eapply nth_error_In; exact Hl.
+  intros HR. rewrite !(opposing_spec C n HQ). intros [l [Hl Hm]]. exists l. split; [exact Hl|].
+  rewrite (reduce_memZ_live C n Hok' Hne'); [exact Hm|].
+  destruct (nth_error_node C j (Lit l) Hl) as [Hj Ej].
+  exists j. split; [exact Hj|]. split; [|exact Ej]. split; [exact HR|].
+  rewrite (counts_unfold C Hok' j Hj), Ej. cbn [count_node]. lia.
 Qed.
 
 (* ================= the shape of the temps before the query ================= *)
@@ -111,14 +111,22 @@ Definition pre_temps (A : cfg) (ts : list Z) : Prop :=
             ~ In j (opposing_indexes d A) -> nth j ts 0 = nth j (counts C) 0.
 
 Definition post_temps (A : cfg) (ts : list Z) : Prop :=
-  forall j, (j < length C)%nat -> nth j C FalseN <> TrueN ->
+  forall j, (j < length C)%nat -> nth j C FalseN <> TrueN -> Reach C j ->
             nth j ts 0 = nth j (countsA A C) 0.
 
+(* nothing is zeroed by the reduced query: the cached counts are the counts under A on the
+   reachable part *)
 Lemma untouched_temps (A : cfg) (ts : list Z) :
-  (forall j, ~ In j (opposing_indexes d A)) -> pre_temps A ts -> post_temps A ts.
+  (forall j, ~ In j (opposing_indexes d (reduce_query d A))) -> pre_temps A ts -> post_temps A ts.
 Proof.
-  intros Hno Hpre j Hj Hnt. rewrite (opposing_none_counts A Hno). apply Hpre; auto.
+  intros Hno Hpre j Hj Hnt HR.
+  rewrite <- (reduce_countsA_reach C n Hok' Hne' A j Hj HR).
+  rewrite (opposing_none_counts (reduce_query d A) Hno). apply Hpre; auto.
+  intros H. exact (Hno j (opposing_reduce_reach A j HR H)).
 Qed.
+
+Lemma reduce_nil : reduce_query d [] = [].
+Proof. reflexivity. Qed.
 
 Lemma opposing_single (f : Z) :
   opposing_indexes d [f] = match lit_idx C (- f) with Some i => [i] | None => [] end.
@@ -134,13 +142,11 @@ Proof.
   intros HC Hpre. unfold card_of_feature_with_marker.
   destruct (has_no_effect d f) eqn:E1.
   - intros _. cbn [fst]. apply untouched_temps; [|exact Hpre].
-    intros j. rewrite opposing_single.
-    unfold has_no_effect in E1. apply andb_true_iff in E1. destruct E1 as [_ E1].
-    cbn [core build] in E1. apply memZ_In, core_spec in E1. destruct E1 as [_ E1].
-    apply lit_idx_none in E1. rewrite E1. intros [].
+    intros j. unfold reduce_query. cbn [filter]. rewrite E1. cbn [negb].
+    unfold opposing_indexes. cbn [filter_map]. intros [].
   - destruct (makes_unsat d f) eqn:E2; [cbn [snd]; lia|].
     cbn [circ build]. destruct (lit_idx C (- f)) as [i|] eqn:E3.
-    + intros _ j Hj Hnt.
+    + intros _ j Hj Hnt _.
       apply (operate_on_marker_temps [f] [i]); [|exact HC|exact Hj|].
       * intros k. split.
         -- intros [<-|[]]. exists (- f). split; [now apply lit_idx_some|].
@@ -150,7 +156,11 @@ Proof.
            apply (lit_idx_spec C (- f) k (wfq_unique C n HQ)) in Hl. congruence.
       * intros Hni. apply Hpre; [exact Hj|exact Hnt|]. now rewrite opposing_single, E3.
     + intros _. cbn [fst]. apply untouched_temps; [|exact Hpre].
-      intros j. rewrite opposing_single, E3. intros [].
+      intros j Hin.
+      assert (Hsub : In j (opposing_indexes d [f])).
+      { unfold opposing_indexes in *. rewrite in_filter_map in *. destruct Hin as [x [Hx Hl]].
+        exists x. split; [|exact Hl]. unfold reduce_query in Hx. apply filter_In in Hx. apply Hx. }
+      rewrite opposing_single, E3 in Hsub. destruct Hsub.
 Qed.
 
 Lemma marker_temps (A : cfg) (s : scratch) :
@@ -162,11 +172,13 @@ Proof.
   destruct (query_is_not_sat d A) eqn:EU; [cbn [snd]; lia|].
   cbv zeta. destruct (opposing_indexes d (reduce_query d A)) as [|i0 rest] eqn:EI.
   - intros _. cbn [fst]. apply untouched_temps; [|exact Hpre].
-    intros j Hin. apply opposing_reduce in Hin. rewrite EI in Hin. destruct Hin.
-  - rewrite <- EI. intros _ j Hj Hnt. rewrite <- (reduce_countsA C n A).
+    intros j Hin. rewrite EI in Hin. destruct Hin.
+  - rewrite <- EI. intros _ j Hj Hnt HR.
+    rewrite <- (reduce_countsA_reach C n Hok' Hne' A j Hj HR).
     apply (operate_on_marker_temps (reduce_query d A) (opposing_indexes d (reduce_query d A))
              (opposing_spec C n HQ (reduce_query d A)) s HC j Hj).
-    intros Hni. apply Hpre; [exact Hj|exact Hnt|]. intros H. apply Hni. now apply opposing_reduce.
+    intros Hni. apply Hpre; [exact Hj|exact Hnt|]. intros H. apply Hni.
+    now apply opposing_reduce_reach.
 Qed.
 
 Lemma default_temps (A : cfg) (s : scratch) :
@@ -176,11 +188,12 @@ Lemma default_temps (A : cfg) (s : scratch) :
 Proof.
   intros HC. unfold operate_on_partial_config_default.
   destruct (query_is_not_sat d A) eqn:EU; [cbn [snd]; lia|].
-  cbv zeta. cbn [fst snd]. intros _ j Hj _.
+  cbv zeta. cbn [fst snd]. intros _ j Hj _ HR.
   pose proof (default_loop_spec C n HQ (reduce_query d A) (length C) s (Nat.le_refl _)
                                 (cl_temps C s HC)) as H.
   cbv zeta in H. cbn [circ build] in *.
-  destruct H as [_ [_ [_ [_ F5]]]]. rewrite (F5 j Hj). now rewrite (reduce_countsA C n A).
+  destruct H as [_ [_ [_ [_ F5]]]]. rewrite (F5 j Hj).
+  exact (reduce_countsA_reach C n Hok' Hne' A j Hj HR).
 Qed.
 
 Theorem execute_query_temps (A : cfg) (s : scratch) :
